@@ -638,10 +638,13 @@ def size(a):
     return asarray(a).size
 
 
-def diff(a, n=1, axis=-1):
+def diff(a, n=1, axis=-1, prepend=None, append=None):
     a = asarray(a)
     if a.ndim != 1:
         raise ShimUnsupported("diff on ndim != 1")
+    if prepend is not None or append is not None:
+        parts = ([atleast_1d(asarray(prepend))] if prepend is not None else []) + [a] + ([atleast_1d(asarray(append))] if append is not None else [])
+        a = concatenate(parts)
     if a.size == 0:
         return a.copy()
     return a[1:] - a[:-1]
